@@ -662,11 +662,27 @@ def oracle(ctx):
     ctx.count("oracle_probes", len(PROBES))
     chunks = [work[i:i + 400] for i in range(0, len(work), 400)]
     t0 = time.time()
+    import gc
+    gc.collect()
+    gc.freeze()          # the work list is millions of objects: keep the forked workers' collector from walking it
     with mp.get_context("fork").Pool(16) as pool:
         results = pool.map(_work, chunks)
+    gc.unfreeze()
+    # a "did not finish" verdict is re-judged alone in a fresh interpreter (a collector pass over the inherited
+    # heap or a descheduled worker must not count as a hang); a real hang reproduces
+    retry = [(c, s_) for n, bad in results for c, s_, w in bad if "did not finish" in w]
+    confirmed = {}
+    if retry:
+        with mp.get_context("spawn").Pool(4, maxtasksperchild=1) as pool2:
+            for (c, s_), (_, bad2) in zip(retry, pool2.map(_work, [[x] for x in retry], chunksize=1)):
+                confirmed[(c, s_)] = bool(bad2)
+        ctx.count("oracle_timeouts_rejudged", len(retry))
+        ctx.count("oracle_timeouts_confirmed", sum(confirmed.values()))
     seen = set()
     for n, bad in results:
         for cfgname, src, w in bad:
+            if "did not finish" in w and not confirmed.get((cfgname, src), True):
+                continue
             ctx.reject({"config": cfgname, "source": src}, "loading the template: " + w, classify(src, w))
     for cfgname, src in work:
         if (cfgname, src) in seen:
